@@ -8,6 +8,7 @@ package dtlcp
 // for simultaneous expiries.
 
 import (
+	"os"
 	"bytes"
 	"encoding/json"
 	"fmt"
@@ -24,6 +25,9 @@ type c19Scenario struct {
 	Resumed    bool   `json:"resumed"`
 	ClientAuth bool   `json:"auth"`
 	ReadFrom   bool   `json:"readfrom"` // the application uses ReadFrom/WriteTo instead of Read/Write
+	// InitMs / MaxMs: configured initial and maximum retransmission timeout in milliseconds (0: the defaults, 1 s and 60 s)
+	InitMs int `json:"init_ms,omitempty"`
+	MaxMs  int `json:"max_ms,omitempty"`
 }
 
 type c19Case struct {
@@ -75,6 +79,16 @@ func c19Exec(c c19Case) c19Out {
 	var o c19Out
 	ccfg, scfg := vfBaseConfigs(c.Sc.Suite, c.Sc.ClientAuth)
 	ccfg.SessionCache, scfg.SessionCache = NewLRUSessionCache(4), NewLRUSessionCache(4)
+	var snaps []time.Duration
+	if c.Sc.InitMs > 0 {
+		ini, max := time.Duration(c.Sc.InitMs)*time.Millisecond, time.Duration(c.Sc.MaxMs)*time.Millisecond
+		ccfg.InitialRetransmitTimeout, scfg.InitialRetransmitTimeout = ini, ini
+		ccfg.MaxRetransmitTimeout, scfg.MaxRetransmitTimeout = max, max
+		for d := ini; d < max; d *= 2 {
+			snaps = append(snaps, d)
+		}
+		snaps = append(snaps, max)
+	}
 	if c.Sc.Resumed {
 		r := vfRunPair(ccfg, scfg, vfPairOpt{})
 		if r.CErr != nil || r.SErr != nil {
@@ -103,7 +117,7 @@ func c19Exec(c c19Case) c19Out {
 		_, err := cn.Write(p)
 		return err
 	}
-	opt := vfPairOpt{Faults: c.Faults, Tie: c.Tie,
+	opt := vfPairOpt{Faults: c.Faults, Tie: c.Tie, Snaps: snaps, Horizon: 600 * time.Second,
 		// the property is about the handshake: application datagrams and alerts lost by the network
 		// are not the library's to recover, so the fault plan only touches handshake-phase datagrams
 		Prepare: func(sim *vfDSim, _, _ *Conn) {
@@ -114,7 +128,13 @@ func c19Exec(c c19Case) c19Out {
 		},
 		CliAct: func(cn *Conn) error {
 			buf := make([]byte, 100)
-			for attempt := 0; attempt < 8 && !gotPong; attempt++ {
+			// the application keeps trying for as long as the retransmission schedule of up to three
+			// faults may take (its own requests go out once per second of virtual time)
+			attempts := 20 // three faults under the default schedule: 1+2+4+8 s
+			if c.Sc.InitMs > 1000 {
+				attempts = 20 * c.Sc.InitMs / 1000
+			}
+			for attempt := 0; attempt < attempts && !gotPong; attempt++ {
 				if err := write(cn, ping); err != nil {
 					return fmt.Errorf("client write: %w", err)
 				}
@@ -138,7 +158,7 @@ func c19Exec(c c19Case) c19Out {
 			}
 			cn.SetReadDeadline(time.Time{})
 			if !gotPong {
-				return fmt.Errorf("no reply to 8 requests")
+				return fmt.Errorf("no reply to %d requests", attempts)
 			}
 			return write(cn, bye)
 		},
@@ -233,6 +253,9 @@ func c19Check(c c19Case) (sig, msg, class string, o c19Out) {
 	if o.panicked != "" {
 		return "panic", o.panicked, "", o
 	}
+	if os.Getenv("VF_TRACE") != "" {
+		fmt.Fprintf(os.Stderr, "TRACE cdone=%v sdone=%v cerr=%v serr=%v run=%v\n%s\n", o.cdone, o.sdone, o.cerr, o.serr, o.runErr, strings.Join(o.trace, "\n"))
+	}
 	known := c19KnownClass(o, c.Sc)
 	if o.cerr != nil || o.serr != nil || o.runErr != nil {
 		sig = "handshake-not-completed"
@@ -253,7 +276,19 @@ func c19Check(c c19Case) (sig, msg, class string, o c19Out) {
 		return "data-after-handshake:" + strings.Join(o.targets, ","), fmt.Sprintf("both completed but application data did not flow: %s; faults %v; trace: %s", o.echoErr, o.targets, tr()), known, o
 	}
 	// completion within the retransmission schedule: initial * (2^(k+1) - 1)
-	limit := time.Second * time.Duration((1<<uint(k+1))-1)
+	// (with a configured initial timeout and maximum: the sum of the first k+1 waits, each capped)
+	ini, max := time.Second, 60*time.Second
+	if c.Sc.InitMs > 0 {
+		ini, max = time.Duration(c.Sc.InitMs)*time.Millisecond, time.Duration(c.Sc.MaxMs)*time.Millisecond
+	}
+	var limit time.Duration
+	for i, w := 0, ini; i <= k; i++ {
+		if w > max {
+			w = max
+		}
+		limit += w
+		w *= 2
+	}
 	done := o.cdone
 	if o.sdone > done {
 		done = o.sdone
@@ -283,7 +318,7 @@ func c19Scenarios() []c19Scenario {
 }
 
 func TestVF_C19(t *testing.T) {
-	rec := vfRec("C19", "C19-faults", "fault patterns of up to k lost / duplicated / delayed datagrams (k=1 exhaustive, k=2 sampled in the quick tier and exhaustive in the thorough tier, k=3 sampled) addressed as (sender, n-th datagram incl. retransmissions), both tie-break orders, over {full,resumed} x 4 suites x client auth x Read/ReadFrom API, under virtual time; oracle: both handshakes complete within initial*(2^(k+1)-1), application data then flows both ways, no expiry without a fault, views agree; non-trivial = at least one fault applied before completion; distinct = (scenario, pattern, tie-break)")
+	rec := vfRec("C19", "C19-faults", "fault patterns of up to k lost / duplicated / delayed datagrams (k=1 exhaustive, k=2 sampled in the quick tier and exhaustive in the thorough tier, k=3 sampled) addressed as (sender, n-th datagram incl. retransmissions), both tie-break orders, over {full,resumed} x 4 suites x client auth x Read/ReadFrom API, plus runs of 1..3 consecutive losses under configured timeouts (1 s/1 s, 1 s/2 s, 10 s/60 s, 250 ms/60 s), under virtual time (the library's dwell period is aged with the simulated clock); oracle: both handshakes complete within the sum of the first k+1 waits of the schedule (initial timeout doubling, capped at the maximum), application data then flows both ways, no expiry without a fault, views agree; non-trivial = at least one fault applied before completion; distinct = (scenario, pattern, tie-break)")
 	scs := c19Scenarios()
 	kinds := []string{"drop", "dup", "delay", "delay2"}
 	idx := 0
@@ -350,6 +385,42 @@ func TestVF_C19(t *testing.T) {
 				}
 				if vfMine(idx) {
 					report(c19Case{Sc: sc, Faults: []vfFault{singles[i], singles[j]}, Tie: idx % 2})
+				}
+			}
+		}
+	}
+	// configured timeouts (maximum equal to / twice the initial value; a long initial value) with
+	// runs of 1..3 consecutive losses of each datagram and its retransmissions
+	for _, tm := range [][2]int{{1000, 1000}, {1000, 2000}, {10000, 60000}, {250, 60000}} {
+		for _, resumed := range []bool{false, true} {
+			sc := c19Scenario{Suite: ECC_SM4_GCM_SM3, Resumed: resumed, InitMs: tm[0], MaxMs: tm[1]}
+			idx++
+			if vfMine(idx) {
+				report(c19Case{Sc: sc})
+			}
+			// the final flight (the datagram with ChangeCipherSpec) and its retransmissions lost 1..3 times
+			// in a row, whatever else is sent in between
+			for dir := 0; dir < 2; dir++ {
+				for b := 1; b <= 3; b++ {
+					idx++
+					if vfMine(idx) {
+						report(c19Case{Sc: sc, Faults: []vfFault{{Kind: "drop", Dir: dir, Nth: -1, Count: b}}, Tie: idx % 2})
+					}
+				}
+			}
+			for dir := 0; dir < 2; dir++ {
+				for nth := 0; nth < 6; nth++ {
+					for b := 1; b <= 3; b++ {
+						idx++
+						if !vfMine(idx) {
+							continue
+						}
+						var fs []vfFault
+						for j := 0; j < b; j++ {
+							fs = append(fs, vfFault{Kind: "drop", Dir: dir, Nth: nth + j})
+						}
+						report(c19Case{Sc: sc, Faults: fs, Tie: idx % 2})
+					}
 				}
 			}
 		}
